@@ -46,6 +46,7 @@ type repoShadow struct {
 	pushed   map[string]bool        // content (as string) ever pushed or mounted to this repository
 	dirty    bool                   // a collection ran: retained set is judged by the GC properties, not here
 	orphans  map[string]bool        // digests that were children of an index since deleted by digest
+	deleted  map[string]bool        // blobs whose last acknowledged request was a delete through the blob API
 	refDirty bool                   // referrers bookkeeping no longer exact (blob of an artifact deleted, switch toggled …)
 }
 
@@ -240,6 +241,7 @@ func (m *Monitors) ackBlob(h *H, repo, real string, b []byte) {
 	rs := m.repo(repo)
 	rs.blobs[real] = append([]byte{}, b...)
 	rs.pushed[string(b)] = true
+	delete(rs.deleted, real)
 }
 
 func (m *Monitors) uPost(h *H, a []string, r Resp) {
@@ -591,6 +593,11 @@ func rangeOK(h *H, spec string, full []byte, r Resp) string {
 // and only in repositories it was pushed to (C16)
 func (m *Monitors) served(h *H, what, repo, real string, want []byte, known bool, head bool, rng string, r Resp) {
 	rs := m.repo(repo)
+	// a blob deleted through the blob API (202) and not pushed again is gone, on every store (C10: the stores answer alike;
+	// a memory store over a directory must not let the copy underneath show through)
+	if (r.Status == 200 || r.Status == 206) && rs.deleted[real] && !rs.dirty && strings.HasPrefix(what, "B") {
+		m.flag(h, "C10.deleted-served", fmt.Sprintf("%s: answered %d although the blob was deleted (202) and not pushed again", what, r.Status))
+	}
 	if r.Status == 200 && !head {
 		if hd := r.header.Get("Docker-Content-Digest"); hd != "" {
 			d := digest.Digest(hd)
@@ -677,6 +684,10 @@ func (m *Monitors) bDel(h *H, a []string, r Resp) {
 	real := h.tk.realDigest(tok)
 	rs := m.repo(repo)
 	if r.Status == 202 {
+		if rs.deleted == nil {
+			rs.deleted = map[string]bool{}
+		}
+		rs.deleted[real] = true
 		delete(m.aged, repo+"|"+real)
 		delete(rs.blobs, real)
 		if ms, ok := rs.mans[real]; ok {
@@ -807,6 +818,7 @@ func (m *Monitors) mPut(h *H, a []string, r Resp) {
 		rs.mans[real] = ms
 	}
 	ms.blobGone = false
+	delete(rs.deleted, real)
 	delete(m.aged, repo+"|"+real) // a pushed manifest is recent, also when its bytes were there already (C05)
 	ms.respLost = false // a push registers the manifest with its subject again
 	ms.noRoot = false
